@@ -609,7 +609,13 @@ func (t *arithTr) binary(x *ast.BinaryExpr) (string, gtype, []string) {
 	return t.fail(x, "unsupported operator %s on %s", x.Op, lt), lt, g
 }
 
-func genArith(repo string) (string, []string) {
+var cmpFuncs = map[string]bool{"EvaluateGreaterThan": true, "EvaluateLesserThan": true, "EvaluateGreaterThanEqual": true,
+	"EvaluateLesserThanEqual": true, "EvaluateEqual": true, "EvaluateNotEqual": true}
+
+func genCmp(repo string) (string, []string)   { return genArithSel(repo, true) }
+func genArith(repo string) (string, []string) { return genArithSel(repo, false) }
+
+func genArithSel(repo string, cmp bool) (string, []string) {
 	fset := token.NewFileSet()
 	f, err := parser.ParseFile(fset, repo+"/pkg/reflectmath.go", nil, 0)
 	if err != nil {
@@ -622,7 +628,7 @@ func genArith(repo string) (string, []string) {
 	var names []string
 	for _, d := range f.Decls {
 		fd, ok := d.(*ast.FuncDecl)
-		if !ok || fd.Recv != nil || !strings.HasPrefix(fd.Name.Name, "Evaluate") {
+		if !ok || fd.Recv != nil || !strings.HasPrefix(fd.Name.Name, "Evaluate") || cmpFuncs[fd.Name.Name] != cmp {
 			continue
 		}
 		t := &arithTr{fset: fset, env: map[string]gtype{}}
@@ -660,7 +666,11 @@ func genArith(repo string) (string, []string) {
 		names = append(names, fd.Name.Name)
 	}
 	sort.Strings(names)
-	out.WriteString("Definition arith_functions : list string := [" + quoteList(names) + "].\n")
+	if cmp {
+		out.WriteString("Definition cmp_functions : list string := [" + quoteList(names) + "].\n")
+	} else {
+		out.WriteString("Definition arith_functions : list string := [" + quoteList(names) + "].\n")
+	}
 	return out.String(), errs
 }
 
